@@ -372,7 +372,33 @@ def first_match_rule(ctx, chk, rule):
     for f in ctx.ix.funcs.values():
         if not f.module.rel.startswith("dateparser/") or f.module.rel.startswith("dateparser/data/"):
             continue
-        for lp in [x for x in iter_own_nodes(f.node) if isinstance(x, ast.For) and ast.unparse(x.iter).split(".")[-1] == "_tz_offsets"]:
+        # the table is shared by the whole process and its order is part of its meaning: nobody reorders or edits it after it is loaded
+        for c in iter_own_nodes(f.node):
+            tgt = None
+            if isinstance(c, ast.Call) and isinstance(c.func, ast.Attribute) and ast.unparse(c.func.value).split(".")[-1] == "_tz_offsets" \
+                    and c.func.attr in ("insert", "pop", "append", "extend", "remove", "sort", "reverse", "clear", "__setitem__", "__delitem__"):
+                tgt = c
+            elif isinstance(c, (ast.Subscript,)) and isinstance(c.ctx, (ast.Store, ast.Del)) and ast.unparse(c.value).split(".")[-1] == "_tz_offsets":
+                tgt = c
+            elif isinstance(c, ast.Call) and ast.unparse(c.func) in ("random.shuffle", "shuffle") and c.args and ast.unparse(c.args[0]).split(".")[-1] == "_tz_offsets":
+                tgt = c
+            if tgt is not None:
+                chk.ob(rule, "%s line %d: the timezone table is not modified after loading" % (f.qual, tgt.lineno), False,
+                       "`%s` changes the process-wide ordered table in place: which entry a later string matches first (numeric offsets "
+                       "before abbreviations) then depends on the calls made before" % " ".join(ast.unparse(tgt).split())[:70],
+                       key={"function": f.key, "construct": "table mutated " + " ".join(ast.unparse(tgt).split())[:40]},
+                       file=f.file, function=f.qual, line=tgt.lineno, text=" ".join(ast.unparse(tgt).split())[:100])
+        for lp in [x for x in iter_own_nodes(f.node) if isinstance(x, ast.For) and any(
+                isinstance(y, (ast.Name, ast.Attribute)) and ast.unparse(y).split(".")[-1] == "_tz_offsets" for y in ast.walk(x.iter))]:
+            it = lp.iter
+            while isinstance(it, ast.Call) and ast.unparse(it.func) in ("enumerate", "iter", "list", "tuple") and it.args:
+                it = it.args[0]
+            if ast.unparse(it).split(".")[-1] != "_tz_offsets":
+                chk.ob(rule, "%s line %d: the timezone table is scanned in its own order" % (f.qual, lp.lineno), False,
+                       "the loop runs over `%s`, not over the table as ordered by its builder" % ast.unparse(lp.iter)[:60],
+                       key={"function": f.key, "construct": "scan order"}, file=f.file, function=f.qual, line=lp.lineno)
+                n += 1
+                continue
             tests = [x for x in ast.walk(lp) if isinstance(x, ast.If) and ".search(" in ast.unparse(x.test) or
                      (isinstance(x, ast.If) and isinstance(x.test, ast.Name) and any(
                          isinstance(a, ast.Assign) and ast.unparse(a.targets[0]) == x.test.id and ".search(" in ast.unparse(a.value) for a in ast.walk(lp)))]
